@@ -351,7 +351,7 @@ def sweep(ctx):
             elif 'raised' in r:
                 ctx.tally('par_raised', f"{r['field']}:{r['raised']}")
             elif 'unparsable_accessor' in r:
-                ctx.tally('par_not_judged', 'unpar removed needed parentheses (caller\'s request)')
+                ctx.tally('par_not_judged', 'unpar removed needed parentheses / par(force=True) added unwanted ones (caller\'s request; par and unpar are not among the edits C01 lists: only positions are judged)')
             else:
                 rn += 1
                 ctx.count(('r', r['case'][1], r['node'], r['op']), True)
@@ -375,6 +375,23 @@ def sweep(ctx):
             if 'fail' in r:
                 ctx.fail(c01_targets.opt_signature(r), f"{r['op']} (step {r['step']}) on {r['cls']}.{r['field']} of {r['src']!r} -> {r.get('after')!r}: {r['fail'][:200]}", r)
     ctx.notes['optional_field_steps'] = on
+    # ADDING an absent optional child (vararg next to a bare `*`, returns, annotation, Slice parts, cause, msg, `as` target, bound,
+    # handler type, guard, Dict key in front of `**`) where neighbours contain the characters the put searches for (`*`, `:`, `=`,
+    # `)`, `->`, `as`, `from` inside defaults, annotations and strings); then delete it again / replace it
+    an = 0
+    for lst in pmap(c01_targets.run_add_case, c01_targets.add_cases()):
+        for r in lst:
+            if 'setup_error' in r:
+                ctx.brk('harness', 'c01_targets add set-up', str(r)[:200])
+                continue
+            if 'raised' in r:
+                ctx.tally('add_raised', f"{r['cls']}.{r['field']}:{r['raised']}")
+            an += 1
+            ctx.count(('a', r['case'][1], r['vi'], r['var'], r['fi']), True)
+            ctx.tally('add_field', f"{r['cls']}.{r['field']}")
+            if 'fail' in r:
+                ctx.fail(c01_targets.add_signature(r), f"{r['op']} (step {r['step']}) {r['value']!r} to {r['cls']}.{r['field']} of {r['src']!r} -> {r.get('after')!r}: {r['fail'][:200]}", r)
+    ctx.notes['optional_child_added_steps'] = an
     # witnesses of REPAIRED findings are regression inputs: a 'fixed' entry suppresses nothing, so a witness that fails again
     # (repair reverted or not yet applied) is reported under its own signature
     import framework
@@ -435,7 +452,7 @@ def check_known(ctx, entry):
     w = entry['witness']
     if 'case' in w:
         import c01_targets
-        d = (c01_targets.replay_prim(w) if w['case'][0] == 'p' else c01_targets.replay_move(w) if w['case'][0] == 'm' else c01_targets.replay_par(w) if w['case'][0] == 'r' else c01_targets.replay_opt(w) if w['case'][0] == 'o' else c01_targets.replay(w))
+        d = (c01_targets.replay_prim(w) if w['case'][0] == 'p' else c01_targets.replay_move(w) if w['case'][0] == 'm' else c01_targets.replay_par(w) if w['case'][0] == 'r' else c01_targets.replay_opt(w) if w['case'][0] == 'o' else c01_targets.replay_add(w) if w['case'][0] == 'a' else c01_targets.replay(w))
         if d:
             ctx.fail(entry['id'], entry['what'], w)
         return
@@ -468,7 +485,7 @@ def replay(ctx, data):
         return
     if 'case' in w:                 # a witness of the targeted product sweeps
         import c01_targets
-        d = (c01_targets.replay_prim(w) if w['case'][0] == 'p' else c01_targets.replay_move(w) if w['case'][0] == 'm' else c01_targets.replay_par(w) if w['case'][0] == 'r' else c01_targets.replay_opt(w) if w['case'][0] == 'o' else c01_targets.replay(w))
+        d = (c01_targets.replay_prim(w) if w['case'][0] == 'p' else c01_targets.replay_move(w) if w['case'][0] == 'm' else c01_targets.replay_par(w) if w['case'][0] == 'r' else c01_targets.replay_opt(w) if w['case'][0] == 'o' else c01_targets.replay_add(w) if w['case'][0] == 'a' else c01_targets.replay(w))
         if d:
             ctx.fail('replay', d, w)
         return
